@@ -20,7 +20,7 @@ meta = {
     "property": prop,
     "breaks": breaks,
     "needs_to_manifest": needs,
-    "written_by": "independent sub-agent (rounds 2-9) given only the property text, the one-line description of the round-1 change to avoid, and a scratch worktree",
+    "written_by": "independent sub-agent (rounds 2-10) given only the property text, the one-line description of the round-1 change to avoid, and a scratch worktree",
     "confirmed_by_me": {
         "compiles": kv["compile"] == "0",
         "upstream_suite_passes_with_change": kv["upstream_tests"] == "0",
